@@ -5,7 +5,9 @@ from framework import coq_bs, coq_z, coq_list, coq_opt
 ID = 'C02'
 COQ_IMPORTS = ['G_gff', 'C02_Model']
 GENERATORS = ['gen_gff']
-RULE = ('five streams: (hist) histories on the same live FeatureLists / texts: repeated GFF cycles and TSV/CSV writes with different '
+RULE = ('six streams: (seqgff) BioBaskets whose sequences carry features (some without seqid, some naming another or no sequence) '
+        'through write(fmt=gff) / read(fmt=gff or detected); TSV/CSV selections with extra metadata columns named like MMseqs2/BLAST '
+        'columns, read back with fmt= and with auto-detection; (hist) histories on the same live FeatureLists / texts: repeated GFF cycles and TSV/CSV writes with different '
         'column selections in any order, in-place edits (aliases, _gff entries, locations) in between, mutation of every returned '
         'object, features sharing Location objects, a second list / text colliding on ids, lengths and coordinates; every step is '
         'compared with the pure model on the current abstract value; (edit) features read from generated GFF text and then edited through ft.name / ft.id / ft.seqid / ft.type / '
@@ -32,7 +34,7 @@ ASSUMPTIONS = ['Python str restricted to ASCII (code points < 128) in every fiel
                'no location-level seqid/type/ID, and neighbouring features do not share (ID, type, seqid)',
                'score literals of the form [-]d+.d+ with <= 15 digits and no redundant zeros (so that repr(float(tok)) == tok)']
 
-MODELLED_FUNCS = {'sugar/_io/gff.py': ['read_fts_gff', 'write_fts_gff'],
+MODELLED_FUNCS = {'sugar/_io/gff.py': ['read_fts_gff', 'write_fts_gff', 'read_gff', 'write_gff'],
                   'sugar/core/fts.py': ['LocationTuple.__new__', 'LocationTuple.range', 'Location.__init__', 'Feature.__init__',
                                         'FeatureList.tolists', 'FeatureList.topandas', 'FeatureList.frompandas'],
                   'sugar/_io/tab/xsv.py': ['_read_fts_xsv', '_write_fts_xsv', 'read_fts_tsv', 'read_fts_csv', 'write_fts_tsv', 'write_fts_csv']}
@@ -220,26 +222,65 @@ def impl(case):
         mp = _invented_ids(o0, w)
         return [o0, [c.rstrip('\n') for c in comments], _subst(w, mp) if mp else w]
     if k == 'xsv':
-        return _xsv(build_fts(case['fts']), case['keys'], case['_sep'], case['_fmt'], case.get('_keystr'), case.get('ftype'))
+        return _xsv(build_fts(case['fts']), case.get('allkeys') or case['keys'], case['_sep'], case['_fmt'], case.get('_keystr'),
+                    case.get('ftype'), case.get('_auto'))
+    if k == 'seqgff':
+        return impl_seqgff(case)
     raise ValueError(k)
 
 
-def _xsv(fts, keys, sepname, fmt, keystr, ftype=None):
+def impl_seqgff(case):
+    from sugar import BioBasket, BioSeq, read
+    seqs = []
+    for sid, data, fspecs in case['seqs']:
+        sq = BioSeq(data, id=sid)
+        sq.fts = build_fts(fspecs)
+        seqs.append(sq)
+    b = BioBasket(seqs)
+    o0 = obs_fts(b.fts)
+    if case.get('_via') == 'file':
+        fd, fn = tempfile.mkstemp(suffix='.gff', prefix='C02-', dir='/tmp')
+        os.close(fd)
+        try:
+            b.write(fn)
+            with open(fn, newline='') as f:
+                w = f.read()
+            b2 = read(fn)                              # format detected from the content
+        finally:
+            os.remove(fn)
+    else:
+        w = b.tofmtstr('gff')
+        b2 = read(io.StringIO(w), fmt='gff')
+    assert obs_fts(b.fts) == o0, 'writing changed the features of the basket'
+    assert '##FASTA\n' in w, 'no ##FASTA section'
+    gffpart, fasta = w.split('##FASTA\n', 1)
+    assert [sq.id for sq in b2] == [c[0] for c in case['seqs']] and [str(sq) for sq in b2] == [c[1] for c in case['seqs']], 'sequences changed'
+    mp = _invented_ids(o0, gffpart)
+    return [_subst(gffpart, mp), _subst(obs_fts(b2.fts), mp)]
+
+
+def _xsv(fts, keys, sepname, fmt, keystr, ftype=None, auto=False):
     if True:
         from sugar import read_fts
         sep = SEPS[sepname]
+        allkeys = list(keys)
+        keys = [k for k in allkeys if k in XKEYS]
         kw = {}
         if (fmt, sep) not in (('tsv', '\t'), ('csv', ',')):
             kw['sep'] = sep
-        text = fts.tofmtstr(fmt, keys=' '.join(keys) if keystr else list(keys), **kw)
+        text = fts.tofmtstr(fmt, keys=' '.join(allkeys) if keystr else list(allkeys), **kw)
         lines = text.split('\n')
-        assert lines[-1] == '' and lines[0].split(sep) == keys, 'header %r' % lines[0]
+        assert lines[-1] == '' and lines[0].split(sep) == allkeys, 'header %r' % lines[0]
         rows = []
-        for ln in lines[1:-1]:
+        for ln, ft in zip(lines[1:-1], fts):
             cells = ln.split(sep)
-            assert len(cells) == len(keys)
+            assert len(cells) == len(allkeys)
             row = []
-            for kk, c in zip(keys, cells):
+            for kk, c in zip(allkeys, cells):
+                if kk not in XKEYS:
+                    # a metadata column that was selected as well (possibly named like a column of another tabular format)
+                    assert c == str(ft.meta.get(kk, '')), 'metadata column %s: %r' % (kk, c)
+                    continue
                 row.append(int(c) if kk in ('start', 'stop', 'len') else (None if c == '' and kk == 'type' else c))
             rows.append(row)
         assert [list(r) for r in fts.tolists(' '.join(keys))] == [list(r) for r in fts.tolists(tuple(keys))], 'tolists: keys as str / tuple'
@@ -254,6 +295,18 @@ def _xsv(fts, keys, sepname, fmt, keystr, ftype=None):
             assert t is None or isinstance(t, str), 'type read back as %r' % (t,)
             assert type(l.start) is int and type(l.stop) is int
             res.append([t, l.start, l.stop, str(l.strand)])
+        if auto and (fmt, sep) in (('tsv', '\t'), ('csv', ',')) and ftype is None:
+            # the same file read with format auto-detection, as sugar's own table tests do
+            fd, fn = tempfile.mkstemp(suffix='.txt', prefix='C02-', dir='/tmp')
+            try:
+                with os.fdopen(fd, 'w', newline='') as f:
+                    f.write(text)
+                back2 = read_fts(fn)
+            finally:
+                os.remove(fn)
+            res2 = [[ft.type, ft.loc.start, ft.loc.stop, str(ft.loc.strand)] for ft in back2]
+            assert res2 == res, 'read with auto-detection differs: %r' % (res2,)
+            assert all(ft.meta.get('_fmt') == fmt for ft in back2), 'detected as %r' % ([ft.meta.get('_fmt') for ft in back2][:1],)
         return [rows, res]
 
 
@@ -409,6 +462,9 @@ def _model_term(case):
             else:
                 parts.append('run_C02_text %s' % coq_bs(val))
         return 'out (VL %s)' % coq_list(parts)
+    if k == 'seqgff':
+        return 'out (run_C02_seqgff %s %s)' % (coq_list([coq_bs(c[0]) for c in case['seqs']]),
+                                               coq_list([coq_feat(f) for c in case['seqs'] for f in c[2]]))
     if k == 'opt':
         o = '(mkRopts %s %s %s)' % (coq_opt(case.get('filt'), lambda l: coq_list([coq_bs(x) for x in l])), coq_opt(case.get('fast'), coq_bs),
                                     coq_opt(case.get('default'), coq_bs))
@@ -579,7 +635,40 @@ def _spec_opt(case, got):
     return None
 
 
+def _spec_seqgff(case, got):
+    if isinstance(got, dict):
+        return 'raised %s on an input of the domain' % got['e']
+    w, o1 = got
+    ids = [c[0] for c in case['seqs']]
+    feats = [f for c in case['seqs'] for f in c[2]]
+    def sid(f):
+        m = dict((k, v) for k, v in f['meta'])
+        g = dict((k, v) for k, v in (f['gff'] or []))
+        v = m.get('seqid', g.get('seqid'))
+        return None if v is None else v[1]
+    def fid(f):
+        m = dict((k, v) for k, v in f['meta'])
+        g = dict((k, v) for k, v in (f['gff'] or []))
+        v = m.get('id', g.get('ID'))
+        return None if v is None else (tuple(v[1]) if v[0] == 1 else v[1], dict((k, v) for k, v in f['meta']).get('type', [0, None])[1], sid(f))
+    fids = [fid(f) for f in feats]
+    if any(a is not None and a == b for a, b in zip(fids, fids[1:])):
+        return None                      # neighbouring lines of one (ID, type, seqid) are one feature to the reader
+    want = []
+    for i in ids:
+        for f in feats:
+            if sid(f) == i:
+                t = dict((k, v) for k, v in f['meta']).get('type')
+                want.append((None if t is None else t[1], expected_order([l[:3] for l in f['locs']])))
+    have = [(dict((k, tuple(v)) for k, v in f[0]).get('type', (0, None))[1], [l[:3] for l in f[2]]) for f in o1]
+    if have != want:
+        return 'features naming a sequence: read back %r, written %r' % (have, want)
+    return None
+
+
 def _spec(case, got, skip_firstloc):
+    if case['_k'] == 'seqgff':
+        return _spec_seqgff(case, got)
     if case['_k'] == 'opt':
         return _spec_opt(case, got)
     if case['_k'] == 'hist':
@@ -1081,7 +1170,48 @@ def gen_xsv(rng):
     for f in fts:
         if rng.random() < 0.3:
             f['_ctor'] = rng.choice(['kw', 'tuple', 'type'])
+    if rng.random() < 0.5:
+        # metadata columns selected as well, named like columns of other tabular formats (MMseqs2, BLAST) or like the aliases
+        extra = rng.sample(OTHER_COLS, rng.choice([1, 1, 2, 3]))
+        for f in fts:
+            f['_ctor'] = None
+            for e in extra:
+                f['meta'].append([e, [0, rng.choice(['v1', 'x7', 'abc', 'q_9'])]])
+        allkeys = list(c['keys']) + extra
+        rng.shuffle(allkeys)
+        c['keys'] = [k for k in allkeys if k in XKEYS]
+        c['allkeys'] = allkeys
+    c['_auto'] = rng.random() < 0.7
     return c
+
+
+OTHER_COLS = ['evalue', 'pident', 'bits', 'qstart', 'qend', 'mismatch', 'gapopen', 'taxid', 'score', 'seqid', 'name', 'id', 'fident',
+              'query', 'target', 'alnlen', 'tstart', 'tend', 'bitscore', 'sseqid', 'qseqid']
+
+
+def gen_seqgff(rng):
+    """sequences with their features through the sequence GFF writer/reader; some features name no (existing) sequence"""
+    ids = rng.sample(['s1', 's2', 'chrA', 'NC_1.1', 'seq-3'], rng.choice([1, 2, 2, 3]))
+    seqs = []
+    n = 0
+    for sid in ids:
+        fs = []
+        for _ in range(rng.choice([0, 1, 2, 3])):
+            f = rfeature(rng, n, True)
+            n += 1
+            f['meta'] = [kv for kv in f['meta'] if kv[0] != 'seqid']
+            f['gff'] = [kv for kv in (f['gff'] or []) if kv[0] != 'seqid'] or None
+            r = rng.random()
+            if r < 0.6:
+                f['meta'].append(['seqid', [0, sid]])
+            elif r < 0.7:
+                f['meta'].append(['seqid', [0, rng.choice(ids)]])         # names another sequence of the basket
+            elif r < 0.8:
+                f['meta'].append(['seqid', [0, 'unknown']])
+            # else: no seqid at all, written as '.'
+            fs.append(f)
+        seqs.append([sid, ''.join(rng.choice('ACGT') for _ in range(rng.choice([4, 10, 70]))), fs])
+    return {'_k': 'seqgff', 'seqs': seqs, '_via': 'file' if rng.random() < 0.3 else 'str'}
 
 
 def gen_cases(rng, tier):
@@ -1089,6 +1219,7 @@ def gen_cases(rng, tier):
     nedit = 200 if tier != 'thorough' else 2500
     nhist = 250 if tier != 'thorough' else 1500
     nopt = 120 if tier != 'thorough' else 1500
+    nseq = 120 if tier != 'thorough' else 1500
     cases = []
     for _ in range(nobj):
         cases.append(gen_obj(rng, in_domain=rng.random() < 0.9))
@@ -1104,13 +1235,24 @@ def gen_cases(rng, tier):
         cases.append(gen_hist(rng))
     for _ in range(nopt):
         cases.append(gen_opt(rng))
+    for _ in range(nseq):
+        cases.append(gen_seqgff(rng))
     if tier == 'thorough':
         # every permutation of every admissible column selection, both formats
         import itertools
         for r in range(1, 6):
             for ks in itertools.permutations(XKEYS, r):
                 c = gen_xsv(rng)
+                extra = [k for k in c.get('allkeys', []) if k not in XKEYS]
                 c['keys'] = list(ks)
+                c.pop('ftype', None)
+                if extra:
+                    allkeys = list(ks) + extra
+                    rng.shuffle(allkeys)
+                    c['allkeys'] = allkeys
+                    c['keys'] = [k for k in allkeys if k in XKEYS]
+                else:
+                    c.pop('allkeys', None)
                 cases.append(c)
     for _ in range(nxsv):
         cases.append(gen_xsv(rng))
@@ -1130,6 +1272,8 @@ def nontrivial(case, got):
         return None
     if case['_k'] == 'hist':
         return 'hist:' + ','.join(st[0] for st in case['steps'])
+    if case['_k'] == 'seqgff':
+        return 'seqgff:%d:%d' % (len(case['seqs']), len(got[1]))
     if case['_k'] == 'xsv':
         return 'xsv:' + ','.join(case['keys']) + ':' + case['_sep']
     marks = set()
@@ -1157,7 +1301,11 @@ def nontrivial(case, got):
 
 def histkey(case, got):
     ks = ['kind=' + case['_k'], 'result=' + ('error:' + got['e'] if isinstance(got, dict) else 'ok')]
-    if case['_k'] == 'hist':
+    if case['_k'] == 'seqgff':
+        if isinstance(got, list):
+            ks.append('seqgff-kept=%d' % len(got[1]))
+            ks.append('seqgff-dropped=%d' % (sum(len(c[2]) for c in case['seqs']) - len(got[1])))
+    elif case['_k'] == 'hist':
         ks.append('hist-steps=%d' % len(case['steps']))
         for st in case['steps']:
             ks.append('hist-op=' + st[0])
@@ -1222,6 +1370,8 @@ def extra_checks(rng, tier, cov):
 
 
 def python_snippet(case):
+    if case['_k'] == 'seqgff':
+        return ("import sys; sys.path.insert(0, '/verif/tools')\nfrom props.c02 import impl\ncase = %r\nfor part in impl(case): print(part)" % (case,))
     if case['_k'] == 'ctor':
         return 'from sugar.core.fts import LocationTuple, Location, Feature; ' + case['call']
     if case['_k'] == 'opt':
